@@ -12,7 +12,7 @@ import (
 	_ "verif/gen/c06q"
 )
 
-var opt = twin.Options{Entry: "Main()", After: "after(20)", AfterExpect: "after 21\n"}
+var opt = twin.Options{Entry: "Main()", After: "afterAll(20)", AfterExpect: "after 169\n"}
 
 func main() {
 	r := report.Start("C06", "fault_enumeration")
@@ -26,7 +26,7 @@ func main() {
 	twin.Rekey = rekey
 	twin.RunAll(r, nil, func(c twin.Case, n, i twin.Obs) string { return c.Name }, opt, par.Opts{})
 	r.Set("exhaustive", true)
-	r.Set("rule", "full product: defer stacks (<=2 of 25 kinds: literals, named functions, methods, method values, builtins, defers registered in loops; plus 5 kinds of declared functions / methods / function values that call recover() directly, paired with the 8 core kinds) x 13 endings (explicit panics of 4 value types + 8 run-time faults + return) x main recovers or not, at call depth 2; depth 3 with the stacks split over f and g; family R: one or two of 8 defer kinds repeated at 3 depths of a recursion x all endings; after every program Eval(\"after(20)\") must still work; non-trivial = output lines not all equal")
+	r.Set("rule", "full product: defer stacks (<=2 of 25 kinds: literals, named functions, methods, method values, builtins, defers registered in loops; plus 5 kinds of declared functions / methods / function values that call recover() directly, paired with the 8 core kinds) x 13 endings (explicit panics of 4 value types + 8 run-time faults + return) x main recovers or not, at call depth 2; depth 3 with the stacks split over f and g; family R: one or two of 8 defer kinds repeated at 3 depths of a recursion x all endings; after every program Eval(\"afterAll(20)\") - a declared function, a closure variable and a stateful closure returned by a constructor, all created before the program ran - must still work; non-trivial = output lines not all equal")
 	r.Finish()
 }
 
@@ -36,16 +36,26 @@ func rekey(name, key string, failing map[string]bool) string {
 	for {
 		next := ""
 		for _, cand := range reductions(cur) {
-			if failing[cand] {
+			// only towards a program that fails in the same way: a program whose first difference is the usability
+			// line ("after ...") is a different finding than one whose own output or ending differs
+			if failing[cand] && usability(cand) == usability(name) {
 				next = cand
 				break
 			}
 		}
 		if next == "" {
+			if usability(name) {
+				return cur + " ## not usable afterwards"
+			}
 			return cur
 		}
 		cur = next
 	}
+}
+
+// usability: the first difference of this failing program is the line printed by the Eval made after the program.
+func usability(name string) bool {
+	return strings.Contains(twin.Symptoms[name], "native=\"after ")
 }
 
 func reductions(name string) []string {
